@@ -300,6 +300,20 @@ def _native_attr_values(tier, seed):
 
     a, b, c = pool(), pool(), pool()
     cases = 0
+    # "two attributes built from the same parameters are equal": the same parameters handed over in each form the constructor accepts
+    from xdsl.dialects.builtin import FusedLoc, NoneAttr, TupleType, UnknownLoc
+
+    for name, x, y in (("TupleType(list) vs TupleType(ArrayAttr)", TupleType([i32, f32]), TupleType(ArrayAttr([i32, f32]))),
+                       ("TupleType(tuple) vs TupleType(list)", TupleType((i8,)), TupleType([i8])),
+                       ("FusedLoc(list) vs FusedLoc(ArrayAttr)", FusedLoc([UnknownLoc()], NoneAttr()), FusedLoc(ArrayAttr([UnknownLoc()]), NoneAttr()))):
+        cases += 1
+        try:
+            ok = x == y and hash(x) == hash(y)
+        except TypeError as e:
+            return {"cases": cases, "failures": [{"key": "C08/same-parameters", "pair": name, "what": f"unhashable: {e}"}], "exhaustive": True, "bound": ""}
+        if not ok:
+            return {"cases": cases, "failures": [{"key": "C08/same-parameters", "pair": name, "x": str(x), "y": str(y), "what": "built from the same parameters but not equal / different hashes"}],
+                    "exhaustive": True, "bound": ""}
     for i, x in enumerate(a):
         for j, y in enumerate(b):
             cases += 1
